@@ -84,7 +84,7 @@ def b64d(v):
 # ---------------------------------------------------------------------------------------------
 # bookkeeping pass: the hashlib rows the specification needs, the number of random bytes it draws
 # ---------------------------------------------------------------------------------------------
-def rows_for(c):
+def rows_for(c, trace=None):
     alg, ds, stream = c["alg"], SIZES[c["alg"]], c["stream"]
     rows, seen = [], set()
     pos = 0
@@ -180,6 +180,8 @@ def rows_for(c):
                 load(tv)
         elif k == "create":
             create(op[1], op[2])
+        if trace is not None:
+            trace.append(cur)
     return rows, pos
 
 
@@ -370,6 +372,63 @@ def mk_digest(alg, salt, p):
     return Digest(salt, hh(alg, salt + enc(p)), alg)
 
 
+def _both(mats):
+    out = []
+    for m in mats:
+        out.append(m)
+        try:
+            out.append(m.decode("ascii"))
+        except UnicodeDecodeError:
+            out.append(m.decode("latin-1"))      # the raw bytes typed as text
+    return out
+
+
+def derived(cur):
+    """everything somebody who can read the stored value / the file knows: none of it is the secret, so a challenge with
+    any of it (as bytes or as text) must fail.  cur = (salt, digest, alg) as the specification says it is stored.
+    Returns (short, long) lists; short[0] is the digest bytes."""
+    salt, dg, a = cur
+    b64s, b64d_ = base64.b64encode(salt), base64.b64encode(dg)
+    fn = getattr(hashlib, ALGS[a]) if a < 6 else None
+    rep = "DigestValue(salt=%r, digest=%r, algorithm=%r)" % (salt, dg, fn)
+    doc = {"salt": b64s.decode(), "digest": b64d_.decode()}
+    short = _both([dg, salt, b64d_, b64s, dg.hex().encode(), dg[:len(dg) // 2], b64d_.rstrip(b"="), dg + b"\n",
+                   hh(a, dg) if a < 6 else dg[::-1], dg[::-1]])
+    long_ = _both([salt + dg, dg + salt, b64s + b":" + b64d_, b64s + b64d_, salt.hex().encode(), (salt + dg).hex().encode(),
+                   dg.hex().upper().encode(), repr(dg).encode(), rep.encode(), json.dumps(doc).encode(), repr(doc).encode()])
+    return short, long_
+
+
+def add_derived(c, per_step=2, long_every=6):
+    """second pass over a finished case: after every operation that stores a value (new / assign / load / saveload) add
+    challenges with material derived from the value the specification says is now stored.  The digest bytes themselves
+    are always among them; the others rotate (the long printed forms more rarely: literal size is time)."""
+    trace = []
+    rows_for(c, trace)
+    ops, k = [], c["alg"] + len(c["ops"]) + len(c["stream"])
+    for op, cur in zip(c["ops"], trace):
+        ops.append(op)
+        if op[0] in ("new", "assign", "load", "saveload") and cur is not None and len(cur[1]) > 0 and cur[2] < 6:
+            short, long_ = derived(cur)
+            picks = [short[0]]
+            n_extra = per_step - 1 if per_step >= 2 else (1 if k % 3 == 0 else 0)     # per_step 1: an extra every third step
+            for j in range(n_extra):
+                kk = k * 7 + j * 11
+                picks.append(long_[kk % len(long_)] if (k + j) % long_every == 0 else short[1 + kk % (len(short) - 1)])
+            if k % 7 == 0:
+                picks.append(Digest(cur[0], cur[1], cur[2]))          # the stored value object itself
+            k += 1
+            seen = []
+            for q in picks:
+                if isinstance(q, Digest):
+                    ops.append(("challenge", q))
+                elif q not in seen and hh(cur[2], cur[0] + enc(q)) != cur[1]:
+                    seen.append(q)
+                    ops.append(("challenge", q))
+    c["ops"] = ops
+    return c
+
+
 def finish(c, rng=None):
     """give the case a stream holding exactly the bytes the specification draws (pairwise distinct blocks)"""
     n = draws_needed(c) + SLACK
@@ -514,10 +573,10 @@ def matrix(tier="quick"):
             if not asbytes and n < 100:
                 ops += [("load", qq, "tree"), ("challenge", pp), ("challenge", qq)]
             cases.append(finish({"alg": a, "req": False, "default": None, "ops": ops, "secrets": [pp, qq]}))
-    return [pc for c in cases for pc in split_case(c)]
+    return [add_derived(pc, 1, 12) if tier == "quick" else add_derived(pc, 3, 2) for c in cases for pc in split_case(c)]
 
 
-def split_case(c, limit=14):
+def split_case(c, limit=10):
     """cut a long history into several cases.  Every piece starts with a fresh configuration and is cut only in front of
     an operation that sets the stored value anew (assign / load / new), so each piece is a history in its own right;
     the pieces together hold the same operations.  (Many small cases spread over the case shards, which are evaluated in
@@ -717,7 +776,8 @@ def generate(rng, tier):
     cases = matrix(tier)
     n = 260 if tier == "quick" else 6000
     for _ in range(n):
-        cases.append(random_case(rng))
+        c = random_case(rng)
+        cases.append(add_derived(c, rng.choice([1, 2]), 4) if rng.random() < 0.6 else c)
     return cases
 
 
@@ -878,7 +938,7 @@ def impl(c):
                     cfg.pw = conv(op[1])
                     r = show(cfg.pw)
                 elif k == "challenge":
-                    r = cfg.pw.challenge(op[1])
+                    r = cfg.pw.challenge(conv(op[1]))
                 elif k == "basic":
                     r = field.to_basic(cfg, cfg.pw)
                 elif k == "python":
@@ -1018,7 +1078,15 @@ def oracle(c, obs):
             if expect and not ok:
                 bad.append("op %d: challenge with the right secret failed: %r" % (i, o))
             if not expect and o != ("err", "value"):
-                bad.append("op %d: challenge with a wrong secret did not raise ValueError: %r" % (i, o))
+                what = "a wrong secret"
+                sh, lg = derived((stored.salt, stored.digest, stored.alg))
+                if enc(op[1]) == stored.digest:
+                    what = "the stored DIGEST bytes (readable in the saved file) as the secret"
+                elif op[1] in sh or op[1] in lg:
+                    what = "material derived from the stored salt/digest (%r...) as the secret" % (op[1][:24],)
+                bad.append("op %d: challenge with %s did not raise ValueError: %r" % (i, what, o))
+        if k == "challenge" and isinstance(stored, Digest) and not is_secret(op[1]) and ok:
+            bad.append("op %d: challenge with a %s (not a str/bytes secret) was accepted" % (i, type(op[1]).__name__))
         if k == "challenge" and isinstance(stored, Digest) and isinstance(op[1], str) and enc(op[1]) is None:
             # no stored secret can contain a character str.encode() refuses (hashing it raises), so this q differs from
             # the secret: the challenge must fail, and fail as a ValueError (UnicodeEncodeError is one; measured below)
